@@ -498,7 +498,7 @@ def job_postparse(loader, ncols, rows):
             ok = A.And(ok, list(res[1]) == labels)
         elif loader in ('load_intervals', 'load_labeled_intervals', 'load_valued_intervals'):
             iv = res if loader == 'load_intervals' else res[0]
-            A.require(tuple(np.shape(iv)) == ((rows, 2) if rows else np.shape(iv)), 'io.%s:shape' % loader)
+            A.require(tuple(np.shape(iv)) == (rows, 2), 'io.%s:shape' % loader, got=tuple(np.shape(iv)))
             for r in range(rows):
                 ok = A.And(ok, A.xeq(iv[r, 0], cols[0][r]), A.xeq(iv[r, 1], cols[1][r]))
             if loader == 'load_labeled_intervals':
